@@ -83,7 +83,9 @@ def build_sandbox(root: Path, layout: str):
     outside = root / 'outside'
     outside.mkdir(parents=True)
     (outside / 'secret').write_text('SECRET')
+    os.chmod(outside / 'secret', 0o640)
     (outside / 'sub').mkdir()
+    os.chmod(outside / 'sub', 0o750)
     (outside / 'sub' / 'canary2').write_text('C2')
     (root / 'canary_top').write_text('TOP')
     # sibling directories whose path has the storage path as a string prefix
@@ -128,16 +130,17 @@ def snapshot(root: Path) -> dict:
     for dirpath, dirnames, filenames in os.walk(root, followlinks=False):
         for name in dirnames + filenames:
             p = os.path.join(dirpath, name)
+            mode = os.lstat(p).st_mode & 0o7777       # permission changes are modifications too
             if os.path.islink(p):
                 snap[p] = ('l', os.readlink(p))
             elif os.path.isdir(p):
-                snap[p] = ('d',)
+                snap[p] = ('d', mode)
             else:
                 try:
                     with open(p, 'rb') as fh:
-                        snap[p] = ('f', fh.read())
+                        snap[p] = ('f', fh.read(), mode)
                 except OSError as e:
-                    snap[p] = ('f?', str(e))
+                    snap[p] = ('f?', str(e), mode)
     return snap
 
 
@@ -264,6 +267,45 @@ def audit_paths(audit, st_real: str) -> set:
                 if a.startswith(st_real + os.sep):
                     out.add(a)
     return out
+
+
+def _work_vanished(batch):
+    """A storage object that outlives its directory: the directory holding the storage directory is
+    removed (or the storage directory was reached through a link whose target has gone) after the
+    LocalStorage was created.  Whatever the operation then does, nothing outside the storage
+    directory - such as its vanished ancestors - may be created."""
+    silence_labtech()
+    from labtech.storage import LocalStorage
+    install_hook()
+    base = '/dev/shm' if os.path.isdir('/dev/shm') and os.access('/dev/shm', os.W_OK) else None
+    top = tempfile.mkdtemp(prefix='c18v_', dir=base)
+    res = []
+    n = 0
+    try:
+        for i, (variant, op) in enumerate(batch):
+            root = os.path.join(top, f'v{i}')
+            holder = os.path.join(root, 'holder')
+            os.makedirs(os.path.join(holder, 'deep', 'storage'))
+            Path(os.path.join(root, 'canary_top')).write_text('TOP')
+            if variant == 'via-link':
+                os.symlink(os.path.join('holder', 'deep', 'storage'), os.path.join(root, 'storage'))
+                given = os.path.join(root, 'storage')
+            else:
+                given = os.path.join(holder, 'deep', 'storage')
+            st_real = os.path.realpath(given)
+            storage = LocalStorage(given, with_gitignore=False)
+            shutil.rmtree(holder)
+            before = snapshot(Path(root))
+            raised, audit = run_case(storage, st_real, root, op)
+            after = snapshot(Path(root))
+            n += 1
+            for key, msg in judge(op, raised, before, after, audit, st_real, root):
+                res.append((f'{key}:{op[0]}:vanished-storage', f'[storage directory removed together with its parent, {variant}] {op!r} '
+                            f'({"raised " + type(raised).__name__ if raised else "returned"}): {msg}', 60))
+            shutil.rmtree(root, ignore_errors=True)
+        return n, res
+    finally:
+        shutil.rmtree(top, ignore_errors=True)
 
 
 PLANTS = ('symlink->outside-dir', 'symlink->outside-file', 'dangling-symlink->outside')
@@ -478,7 +520,15 @@ def run(tier: str, seed: int) -> Result:
         for key, msg, size in res:
             viols.append(Violation('C18', key, msg, {'tier': tier, 'clause': key, 'msg': msg}, size=size))
     total += n_react + n_planted
+    vops = [(v, op) for v in ('direct', 'via-link') for op in rops]
+    n_van = 0
+    for n, res in pmap(_work_vanished, [vops[i:i + 12] for i in range(0, len(vops), 12)]):
+        n_van += n
+        for key, msg, size in res:
+            viols.append(Violation('C18', key, msg, {'tier': tier, 'clause': key, 'msg': msg}, size=size))
+    total += n_van
     cov = {
+        'storage_directory_vanished_cases': n_van,
         'reactive_cases': {'operations': n_react, 'runs_with_a_probed_path_planted_as_symlink': n_planted},
         'two_step_histories_with_environment_change': n_hist,
         'evaluations': total,
@@ -487,7 +537,7 @@ def run(tier: str, seed: int) -> Result:
                  'space, tilde, symlinks pointing outside / to a sibling key / dangling, symlink inside a key dir to an outside file, absolute outside path, '
                  'NUL, .gitignore, case variant) joined by / or \\; ops exists, delete, file_handle in 8 modes (then read/write+close); 4 layouts; '
                  'keys x 3 benign filenames and 3 benign keys x filenames; each case on a fresh (or verified-unchanged) sandbox; plus two-step histories '
-                 '(operation; a key or file is replaced by a symlink to outside / sibling / prefix-sibling; second operation on the same storage object); reactive layouts: every not-yet-existing path an operation names in an audited call is planted as a symlink to an outside directory / file / dangling outside target and the operation repeated; '
+                 '(operation; a key or file is replaced by a symlink to outside / sibling / prefix-sibling; second operation on the same storage object); storage objects whose directory (with its parent) was removed after construction; permission bits are part of the snapshot; reactive layouts: every not-yet-existing path an operation names in an audited call is planted as a symlink to an outside directory / file / dangling outside target and the operation repeated; '
                  'distinct_nontrivial = distinct (layout, operation) cases'),
         'samples': [repr(ops[i]) for i in (0, len(ops) // 3, len(ops) // 2, len(ops) - 1)],
         'operations_that_did_not_raise': accepted,
